@@ -6,7 +6,6 @@ package httpsender
 // Property C10, the HTTP sender half: what is put on the wire is the message given, with the
 // publisher ID appended to every address, encoded once, sent to every announce URL.
 
-
 // A sender built by New has a client and at least one announce URL.
 //@ spec func hsOK(s val) bool = s != nil && s.client != nil && len(s.announceURLs) >= 1
 
